@@ -352,6 +352,10 @@ class CallMixin:
                 res = fresh_val(rk, 'ret_' + short.replace('.', '_'))
                 self.tf_assume(st, self.type_facts(res, rk, st))
             sf3 = self.spec_frame(fv.module, c.qual, fv.cls, env, old=(pre_heap, env), result=res)
+            for g, (gk, _gexpr) in c.ghost_out.items():
+                gv = fresh_val(self.reg.kind(gk), 'gout_' + g)     # existential witness named by the contract
+                self.tf_assume(st, self.type_facts(gv, self.reg.kind(gk), st))
+                sf3.closure[g] = gv
             for _, text, _t in self.clauses(c.ensures):
                 st.assume(asz(truthy(self.ev1(self.parse_spec(text), st, sf3))))
         finally:
